@@ -31,14 +31,34 @@ type gridModel struct {
 	nfSide  string      // side of the first not-found coordinate (row-major, x before y)
 }
 
+// axisClass is the model's view of one coordinate of one sample point.
+type axisClass struct {
+	cl, pix, dir int
+	near         bool
+}
+
+func classifyAxis(c *big.Rat, extent int) axisClass {
+	cl, pix, dir := classify(c, extent)
+	return axisClass{cl, pix, dir, nearBoundary(c)}
+}
+
 // buildModel classifies the exact sample points p (row-major, dx*dy of them) against a w x h image.
 func buildModel(p []pt, dx, dy, w, h int) *gridModel {
-	m := &gridModel{dx: dx, dy: dy, w: w, h: h, cells: make([]cellModel, dx*dy)}
+	xc, yc := make([]axisClass, len(p)), make([]axisClass, len(p))
 	for i := range p {
+		xc[i], yc[i] = classifyAxis(p[i].x, w), classifyAxis(p[i].y, h)
+	}
+	return buildModelAxes(xc, yc, dx, dy, w, h)
+}
+
+// buildModelAxes assembles the grid model from the per-cell classes of the x and y coordinates.
+func buildModelAxes(xc, yc []axisClass, dx, dy, w, h int) *gridModel {
+	m := &gridModel{dx: dx, dy: dy, w: w, h: h, cells: make([]cellModel, dx*dy)}
+	for i := range m.cells {
 		c := &m.cells[i]
-		c.clx, c.px, c.dirx = classify(p[i].x, w)
-		c.cly, c.py, c.diry = classify(p[i].y, h)
-		c.nearB = nearBoundary(p[i].x) || nearBoundary(p[i].y)
+		c.clx, c.px, c.dirx = xc[i].cl, xc[i].pix, xc[i].dir
+		c.cly, c.py, c.diry = yc[i].cl, yc[i].pix, yc[i].dir
+		c.nearB = xc[i].near || yc[i].near
 		for ax, cl := range []int{c.clx, c.cly} {
 			if cl == clNF {
 				if !m.anyNF {
@@ -206,12 +226,14 @@ func xforms(dx, dy int) []xform {
 
 // exactCells returns T(x+1/2, y+1/2) for every cell, row-major.
 func exactCells(ex *proj, dx, dy int) []pt {
+	ix := ex.integer()
 	p := make([]pt, 0, dx*dy)
+	two := big.NewInt(2)
 	for y := 0; y < dy; y++ {
-		cy := ri(int64(2*y+1), 2)
+		yn := big.NewInt(int64(2*y + 1))
 		for x := 0; x < dx; x++ {
-			u, v, den, _ := ex.apply(ri(int64(2*x+1), 2), cy)
-			if den.Sign() == 0 {
+			u, v, _ := ix.applyH(big.NewInt(int64(2*x+1)), yn, two)
+			if u == nil {
 				panic("sample point at infinity")
 			}
 			p = append(p, pt{u, v})
